@@ -168,6 +168,8 @@ def replay(contract: Any, clause: Any, obligation: Any, max_models: int = 16) ->
     """Try to turn a model of a refuted obligation into a failing native run of the real function.
     Up to `max_models` models are tried (blocking clauses over the terms the reifier names)."""
     out: Dict[str, Any] = {"status": "no-input", "detail": "", "inputs": None}
+    if obligation.kind == "frame" and obligation.label.startswith("inplace:"):
+        return replay_frame(contract, obligation)
     if contract.reify is None or obligation.result is None or obligation.result.model is None:
         out["detail"] = "no reifier for this contract" if contract.reify is None else "no model"
         return out
@@ -234,4 +236,28 @@ def replay(contract: Any, clause: Any, obligation: Any, max_models: int = 16) ->
         out["detail"] = "reifier produced no input"
         return out
     out.update(status="spurious", detail=last, tried=tried)
+    return out
+
+
+def replay_frame(contract: Any, obligation: Any) -> Dict[str, Any]:
+    """A syntactic in-place mutation of a parameter: demonstrate it on the contract's native samples."""
+    import copy
+    out: Dict[str, Any] = {"status": "no-input", "detail": obligation.note, "inputs": None}
+    if contract.samples is None:
+        return out
+    fi = lookup(contract.target)
+    pname = obligation.label.split(":")[1].split("@")[0]
+    tried = 0
+    for args in contract.samples():
+        tried += 1
+        before = copy.deepcopy(args.get(pname))
+        try:
+            fi.pyfunc(*[args[a] for a in fi.argnames])
+        except Exception as e:
+            continue
+        if args.get(pname) != before:
+            out.update(status="violation", detail=f"{obligation.note}; argument `{pname}` was {before!r} before the call and is "
+                       f"{args.get(pname)!r} after it", inputs={k: repr(v) for k, v in args.items() if k != "self"}, tried=tried)
+            return out
+    out.update(status="spurious", detail=f"{obligation.note}; no sample shows a mutation", tried=tried)
     return out
